@@ -129,3 +129,91 @@ pub fn run_hist(c: &Value) -> Value {
     e["outs"] = json!(outs);
     e
 }
+
+// ---- scratch-arena histories (Arena.tla): takes of boundary sizes from the window, from remainders and from regions
+// taken earlier; every granted region is written in full; offsets are logged relative to the 64-byte aligned base
+macro_rules! arena_backend {
+    ($fname:ident, $BE:ty) => {
+        pub fn $fname(c: &Value) -> Vec<Value> {
+            type BE = $BE;
+            let id = gu(c, "id", 1);
+            let (win, boff) = (gu(c, "win", 0) as usize, gu(c, "boff", 0) as usize);
+            let hist = c["hist"].as_array().unwrap();
+            let mut buf = ABuf::new(boff + win, id ^ 0x91);
+            let snap = buf.snapshot();
+            let base = buf.win().as_ptr() as usize;
+            let mut regions: Vec<(usize, usize)> = vec![(boff, win)];
+            let mut out: Vec<Value> = vec![];
+            for st in hist.iter() {
+                let src = gu(st, "src", 1) as usize - 1;
+                let n = gu(st, "n", 0) as usize;
+                let kind = st["kind"].as_str().unwrap();
+                let (so, sl) = regions[src];
+                let r = guarded(|| {
+                    // SAFETY (harness): [base + so, + sl) lies inside the ABuf window by construction of `regions`
+                    let bytes: &mut [u8] = unsafe { std::slice::from_raw_parts_mut((base + so) as *mut u8, sl) };
+                    let scr = <Scratch<BE> as ScratchFromBytes<BE>>::from_bytes(bytes);
+                    match kind {
+                        "u8" => {
+                            let (t, rem) = scr.take_slice::<u8>(n);
+                            t.fill(0xA5);
+                            ((t.as_ptr() as usize - base, t.len() as i64), (rem.data.as_ptr() as usize - base, rem.data.len()))
+                        }
+                        "i64" => {
+                            let (t, rem) = scr.take_slice::<i64>(n / 8);
+                            t.fill(-1);
+                            ((t.as_ptr() as usize - base, (t.len() * 8) as i64), (rem.data.as_ptr() as usize - base, rem.data.len()))
+                        }
+                        "vec" => {
+                            let (mut v, rem) = scr.take_vec_znx(1, 1, n / 8);
+                            let p0 = v.at(0, 0).as_ptr() as usize;
+                            for j in 0..v.size() {
+                                v.at_mut(0, j).fill(7);
+                            }
+                            ((p0 - base, (v.size() * 8) as i64), (rem.data.as_ptr() as usize - base, rem.data.len()))
+                        }
+                        "split" => {
+                            let (t, rem) = scr.split_at_mut(n);
+                            t.data.fill(0x5A);
+                            ((t.data.as_ptr() as usize - base, t.data.len() as i64), (rem.data.as_ptr() as usize - base, rem.data.len()))
+                        }
+                        _ => {
+                            // an element count whose byte size does not fit the machine word: the returned slice is NOT touched
+                            let (t, rem) = scr.take_slice::<i64>((1usize << 61) + n / 8);
+                            ((t.as_ptr() as usize - base, -1i64), (rem.data.as_ptr() as usize - base, rem.data.len()))
+                        }
+                    }
+                });
+                let canary = buf.unchanged_except(&snap, &[(boff, boff + win)]);
+                match r {
+                    Ok((t, rem)) => {
+                        if t.1 >= 0 {
+                            regions.push((t.0, t.1 as usize));
+                            regions.push(rem);
+                        }
+                        out.push(json!({"status": "ok", "taken": [t.0, t.1], "rem": [rem.0, rem.1], "canary": canary, "msg": ""}));
+                    }
+                    Err(p) => out.push(json!({"status": "panic", "taken": [0, 0], "rem": [0, 0], "canary": canary, "msg": p.chars().take(80).collect::<String>()})),
+                }
+            }
+            out
+        }
+    };
+}
+arena_backend!(arena_fft64ref, FFT64Ref);
+arena_backend!(arena_fft64avx, FFT64Avx);
+arena_backend!(arena_ntt120ref, NTT120Ref);
+arena_backend!(arena_ntt120avx, NTT120Avx);
+
+pub fn run_arena(c: &Value) -> Value {
+    let outs = match gu(c, "be", 0) {
+        0 => arena_fft64ref(c),
+        1 => arena_fft64avx(c),
+        2 => arena_ntt120ref(c),
+        _ => arena_ntt120avx(c),
+    };
+    let mut e = c.clone();
+    e["ev"] = json!("arena");
+    e["outs"] = json!(outs);
+    e
+}
